@@ -512,6 +512,14 @@ ValidSeeds == {
   FoldSeed(<<"(", "(", "x", ":", "int", ")", "->", "any", "{", "a", ":=", "[", "1", ",", "[", "]", "[", "x", "]", ",", "3", "]", ";", "return", "a", "[", "2", "]", "}", ")">>, "Accepted"),
   FoldSeed(<<"(", "(", "x", ":", "int", ")", "->", "any", "{", "s", ":=", "struct", "{", "p", ":=", "[", "]", "[", "x", "]", ",", "q", ":=", "3", "}", ";", "return", "s", ".", "q", "}", ")">>, "Accepted"),
   FoldSeed(<<"(", "(", "x", ":", "int", ")", "->", "any", "{", "{", "(", "a", ",", "b", ",", "c", ")", ":=", "(", "1", ",", "[", "]", "[", "x", "]", ",", "3", ")", ";", "y", ":=", "c", "}", "return", "x", "}", ")">>, "Accepted"),
+  \* ... the same with non-constant elements behind the one that never yields (a constant is substituted for its name)
+  FoldSeed(<<"(", "(", "x", ":", "int", ")", "->", "any", "{", "(", "a", ",", "b", ",", "c", ")", ":=", "(", "x", ",", "[", "]", "[", "x", "]", ",", "x", "+", "1", ")", ";", "return", "c", "}", ")">>, "Accepted"),
+  FoldSeed(<<"(", "(", "x", ":", "int", ")", "->", "any", "{", "(", "a", ",", "b", ")", ":=", "(", "[", "]", "[", "x", "]", ",", "x", "+", "1", ")", ";", "y", ":=", "b", "+", "1", ";", "return", "y", "}", ")">>, "Accepted"),
+  FoldSeed(<<"(", "(", "x", ":", "int", ")", "->", "any", "{", "t", ":=", "(", "x", ",", "[", "]", "[", "x", "]", ",", "x", "+", "1", ")", ";", "return", "t", ".", "2", "}", ")">>, "Accepted"),
+  FoldSeed(<<"(", "(", "x", ":", "int", ")", "->", "any", "{", "a", ":=", "[", "x", ",", "[", "]", "[", "x", "]", ",", "x", "+", "1", "]", ";", "return", "a", "[", "2", "]", "}", ")">>, "Accepted"),
+  FoldSeed(<<"(", "(", "x", ":", "int", ")", "->", "any", "{", "s", ":=", "struct", "{", "p", ":=", "[", "]", "[", "x", "]", ",", "q", ":=", "x", "+", "1", "}", ";", "return", "s", ".", "q", "}", ")">>, "Accepted"),
+  FoldSeed(<<"(", "(", "x", ":", "int", ")", "->", "any", "{", "f", ":=", "(", "a", ":", "int", ",", "b", ":", "int", ",", "c", ":", "int", ")", "->", "int", "{", "return", "c", "}", ";", "return", "f", "(", "x", ",", "[", "]", "[", "x", "]", ",", "x", "+", "1", ")", "}", ")">>, "Accepted"),
+  FoldSeed(<<"(", "(", "x", ":", "int", ")", "->", "any", "{", "{", "y", ":=", "[", "]", "[", "x", "]", ";", "z", ":=", "x", "+", "1", ";", "w", ":=", "z", "}", "return", "x", "}", ")">>, "Accepted"),
   \* a declaration whose initialiser folds to a statement that never yields (type !), and uses of the name as what it was declared to be
   FoldSeed(<<"(", "(", ")", "->", "any", "{", "x", ":=", "if", "true", "return", "1", "else", "(", "1", ",", "2", ")", ";", "y", ":=", "x", ".", "0", ";", "return", "2", "}", ")">>, "Accepted"),
   FoldSeed(<<"(", "(", ")", "->", "any", "{", "x", ":=", "if", "true", "return", "1", "else", "struct", "{", "a", ":=", "1", "}", ";", "y", ":=", "x", ".", "a", ";", "return", "2", "}", ")">>, "Accepted"),
